@@ -121,6 +121,14 @@ CHECKS = {
             "environment.",
             "Trusted: the model in checks/c20.py; int<->bool cross definitions follow the code the implementation returns.",
             "DESIGN.md section 2, C20"),
+    "C14": ("exploration",
+            "reference-value oracle (hashlib, zlib, Python arithmetic) embedded in rules evaluated by the real modules",
+            "For small buffers every (offset, size) pair in [-2, n+2]^2 and for large buffers random pairs are turned "
+            "into conditions that compare hash/math/string module results with independently computed references (or "
+            "expect undefined), all compiled into one rule set in random order with repetitions so that the digest "
+            "cache is exercised; evaluated over single buffers and contiguous multi-block iterators under sanitizers.",
+            "Trusted: Python hashlib/zlib; the ported `ent` formulas for serial_correlation/monte_carlo_pi; tolerances.",
+            "DESIGN.md section 2, C14"),
 }
 
 NOT_YET = "check not built yet in this round (planned in DESIGN.md section 2); nothing is claimed for it"
